@@ -13,7 +13,7 @@ import warnings
 
 import numpy as np
 
-from harness import classify, progcheck as PC, programs as P
+from harness import classify, gen, progcheck as PC, programs as P
 
 KNOWN = ("swv-layout-drift", "take-through-broadcast", "minmax-zero-size", "slice-through-generic-blockwise")
 
@@ -90,7 +90,11 @@ def run(ctx, replay=None):
     corr = []
     for i in range(N):
         zero = 0.06 if rng.random() < 0.3 else 0.0
-        prog, g = P.gen_program(rng, depth=rng.randint(2, maxdepth), avoid=("swv-consumer",), zero_axes=zero, maxrank=3)
+        if rng.random() < 0.2:
+            # wide axes with many blocks (tree reductions / scans over 7..20 blocks)
+            prog, g = P.gen_program(rng, depth=rng.randint(1, 4), avoid=("swv-consumer",), zero_axes=0.0, maxrank=2, maxdim=20, maxsize=500)
+        else:
+            prog, g = P.gen_program(rng, depth=rng.randint(2, maxdepth), avoid=("swv-consumer",), zero_axes=zero, maxrank=3)
         want = g.env[prog[-1]["out"]]
         variants = [prog] + ([rechunked_variant(rng, prog)] if rng.random() < 0.5 else [])
         for q in variants:
@@ -117,6 +121,17 @@ def run(ctx, replay=None):
             corr.append((prog, want))
         if i < 3:
             ctx.sample({"program": prog, "result_shape": list(want.shape)})
+    # scans over many blocks (both methods): 1..24 unit blocks, plus uneven chunkings
+    for n in range(1, ctx.scale(25, 70)):
+        for method in ("sequential", "blelloch"):
+            cks = [1] * n if rng.random() < 0.7 else list(gen.rand_chunks(rng, n))
+            prog = [{"op": "src", "shape": [n], "chunks": [cks], "mul": 3, "off": -7, "mod": 1 << 20, "out": "v1"},
+                    {"op": "cumsum", "args": ["v1"], "axis": 0, "method": method, "out": "v2"}]
+            want = P.run_np(prog)["v2"]
+            ctx.count(("scan", method, n))
+            f = PC.check_values(ctx, prog, want, True)
+            if f is not None:
+                ctx.fail("scan:" + f["sig"], {"program": prog, **f}, "cumulative scan differs from NumPy")
     # a second stream restricted to the ops of the Lean mini-language (high model coverage)
     for i in range(ctx.scale(250, 3000)):
         prog, g = P.gen_program(rng, depth=rng.randint(2, maxdepth), ops=P.MINI_OPS, zero_axes=0.0, basic_only=True, maxrank=3)
